@@ -63,7 +63,12 @@ fn echo_val(i: u8) -> ScVal {
         4 => sbytes(&[0, 255, 3]),
         5 => svec(vec![su32(1), sstr("x"), svec(vec![])]),
         6 => smap(vec![("a", su64(1)), ("b", sbool(true))]),
-        _ => su128(u128::MAX),
+        7 => su128(u128::MAX),
+        // values a success-flag or error-code reading of the result would trip over
+        8 => sbool(false),
+        9 => su32(0),
+        10 => sstr(""),
+        _ => sbool(true),
     }
 }
 
@@ -107,7 +112,7 @@ impl Scenario for C17 {
             v.push(Act::TransferOwnership { to, by });
         }
         let mut targets = vec![Target::Add, Target::Boom, Target::Crash, Target::NoSuchFn, Target::WrongArgs, Target::Ten];
-        for i in 0..8u8 {
+        for i in 0..12u8 {
             targets.push(Target::Echo(i));
         }
         if m.count < 2 {
@@ -270,7 +275,7 @@ fn main() {
         let mut o = Opts::new(tier, if tier == "thorough" { 12 } else { 8 });
         o.min_depth = 4;
         o.xcheck = tier == "thorough";
-        o.rule = "all sequences over add/remove operator X, Y by {owner O, other owner N, stranger}, ownership transfers O<->N (and by non-owners, to self, to the all-zero account = renouncing, to the operators contract itself, and take-over attempts afterwards), execute by caller X/Y/Z authorised by {itself, a stranger, nobody, the owner, itself but for another forwarded function with the same arguments, itself but for another target contract, itself but for other forwarded arguments} forwarding to a probe contract: echo of 8 values of different types, add(2,3), record(7,tag) (writes + emits, bounded to 2), a target returning an error, a panicking target, a missing function, wrong arity; explored to fixpoint; is_operator for all six accounts, owner() and the probe's delivery count compared after every new state".into();
+        o.rule = "all sequences over add/remove operator X, Y by {owner O, other owner N, stranger}, ownership transfers O<->N (and by non-owners, to self, to the all-zero account = renouncing, to the operators contract itself, and take-over attempts afterwards), execute by caller X/Y/Z authorised by {itself, a stranger, nobody, the owner, itself but for another forwarded function with the same arguments, itself but for another target contract, itself but for other forwarded arguments} forwarding to a probe contract: echo of 12 values of different types (incl. false, true, 0, the empty string, void), add(2,3), record(7,tag) (writes + emits, bounded to 2), a target returning an error, a panicking target, a missing function, wrong arity; explored to fixpoint; is_operator for all six accounts, owner() and the probe's delivery count compared after every new state".into();
         (C17, o)
     });
 }
